@@ -40,6 +40,7 @@ import json
 import os
 import pickle
 import shutil
+import sys
 import tempfile
 
 import dill
@@ -871,6 +872,22 @@ class Machine:
                         bad("view", "model[%d] of slot %d differs from variant %d in %s" % (k, i, k, d), fatal=False, field=d[0])
         except Exception as e:
             bad("view", "%s: %s" % (type(e).__name__, str(e)[:300]), fatal=False, error=type(e).__name__)
+        # ---- the same through iteration: all pieces are taken first and KEPT, then each one is looked at -------
+        try:
+            if after[acted]["nv"] >= 2:
+                pieces = list(objs[acted])
+                res.count("objects_taken_apart_by_iteration")
+                if len(pieces) != after[acted]["nv"]:
+                    bad("view_iter", "iterating over slot %d gives %d pieces for %d variants" % (acted, len(pieces), after[acted]["nv"]), fatal=False)
+                else:
+                    for k, piece in enumerate(pieces):
+                        vw = kind.observe(piece, behaviour=False)
+                        d = ["nv"] if vw["nv"] != 1 else diff_fields(vw["v"][0], after[acted]["v"][k], exact=True, fields=kind.RAW)
+                        if d:
+                            bad("view_iter", "piece %d of list(model) of slot %d differs from variant %d in %s" % (k, acted, k, d), fatal=False, field=d[0])
+                            break
+        except Exception as e:
+            bad("view_iter", "%s: %s" % (type(e).__name__, str(e)[:300]), fatal=False, error=type(e).__name__)
         if bad_state[0]:
             return None
         # ---- bookkeeping ------------------------------------------------------------------
@@ -1115,6 +1132,81 @@ DEPTH = {"quick": {"lin": 3, "nl": 3, "seq": 3, "var": 3},
 ORDER = ("seq", "var", "nl", "lin")       # cheap kinds first, so that a time cap (thorough --cap-min) hits the largest last
 
 
+# ---------------------------------------------------------------------------
+# Part C — pickles loaded by ANOTHER interpreter process (a different string-hash seed)
+# ---------------------------------------------------------------------------
+
+CROSS_CHILD = r"""
+import sys, pickle, warnings, contextlib, io
+root, src, how, kn, path_in, path_out = sys.argv[1:7]
+if src:
+    sys.path.insert(0, src)
+sys.path.insert(0, root)
+warnings.filterwarnings("ignore")
+with contextlib.redirect_stdout(io.StringIO()):
+    from props import c20
+    import dill
+    with open(path_in, "rb") as f:
+        m = (pickle if how == "pickle" else dill).load(f)
+    obs = c20.KINDS[kn].observe(m)
+with open(path_out, "wb") as f:
+    pickle.dump(obs, f)
+"""
+CROSS_HASH_SEEDS = (1, 2, 3)
+
+
+def shard_crossproc(item, res, ctx):
+    """item = (kind name, initial object index, 'pickle'|'dill'): the object is written to a file here and loaded,
+    observed (steady state, solution, simulation, filter) in child interpreters started with other PYTHONHASHSEED
+    values; what they see must be what this process sees"""
+    import subprocess
+    kn, init_id, how = item
+    kind = KINDS[kn]
+    case = {"part": "crossproc", "kind": kn, "init": init_id, "how": how, "seed": ctx.seed}
+    os.makedirs("/verif/.work", exist_ok=True)
+    workdir = tempfile.mkdtemp(dir="/verif/.work", prefix="c20x_")
+    try:
+        m = Machine(kn).impl_init(init_id, ctx)[0]
+        own = kind.observe(m)
+        path_in = os.path.join(workdir, "m.bin")
+        with open(path_in, "wb") as f:
+            (pickle if how == "pickle" else dill).dump(m, f)
+        for hs in CROSS_HASH_SEEDS:
+            res.ev()
+            sig = {"part": "crossproc", "kind": kn, "how": how}
+            path_out = os.path.join(workdir, "o%d.bin" % hs)
+            env = dict(os.environ, PYTHONHASHSEED=str(hs))
+            r = subprocess.run([sys.executable, "-c", CROSS_CHILD, "/verif", os.environ.get("VERIF_REPO_SRC", ""), how, kn, path_in, path_out],
+                               env=env, capture_output=True, text=True, timeout=600)
+            if r.returncode != 0 or not os.path.exists(path_out):
+                res.violation("crossproc_load", dict(sig, error="child_failed"), dict(case, hashseed=hs),
+                              "loading in another process failed: %s" % (r.stderr.strip().splitlines() or ["?"])[-1][:300])
+                continue
+            with open(path_out, "rb") as f:
+                got = pickle.load(f)
+            res.count("crossproc_loads")
+            res.nt(("crossproc", kn, init_id, how, hs))
+            d = None
+            if got["nv"] != own["nv"]:
+                d = ["nv"]
+            elif got["descr"] != own["descr"]:
+                d = ["descr"]
+            elif diff_struct(got["struct"], own["struct"]):
+                d = ["struct:" + diff_struct(got["struct"], own["struct"])[0]]
+            else:
+                for k in range(own["nv"]):
+                    dd = diff_fields(got["v"][k], own["v"][k], exact=False)
+                    if dd:
+                        d = ["variant %d: %s" % (k, dd)]
+                        sig["field"] = dd[0]
+                        break
+            if d:
+                res.violation("crossproc", sig, dict(case, hashseed=hs),
+                              "%s loaded in a process with PYTHONHASHSEED=%d differs from the object that was written in %s" % (how, hs, d))
+    finally:
+        shutil.rmtree(workdir, ignore_errors=True)
+
+
 def run(ctx, total, info):
     only = [x for x in os.environ.get("C20_ONLY", "").split(",") if x]     # development aid; the floors still apply
     per_kind = {}
@@ -1156,6 +1248,11 @@ def run(ctx, total, info):
     if not only or "portable" in only:
         engine.run_shards(__name__, "shard_portable", [cfgs[i::n] for i in range(n)], ctx, total)
     info["portable_configurations"] = len(cfgs)
+    # ---- Part C ---------------------------------------------------------------
+    if not only or "crossproc" in only:
+        items = [(kn, i, how) for kn in KINDS for i in range(len(KINDS[kn].inits(tb, ctx.quick))) for how in ("pickle", "dill")]
+        engine.run_shards(__name__, "shard_crossproc", items, ctx, total)
+        info["cross_process_loads"] = {"objects": len(items), "hash_seeds": list(CROSS_HASH_SEEDS)}
     info["exhaustive"] = (not only) and all(per_kind[k]["max_depth"] == DEPTH[ctx.tier][k] for k in per_kind)
     c = total.counters
     # a thorough run stopped by --cap-min reports exhaustive=False and is held to the quick floors only
@@ -1169,6 +1266,8 @@ def run(ctx, total, info):
         "clones_checked": (sum(c["clones_checked_" + h] for h in CLONES), 1900 if q else 27000),
         "alias_scans_between_members": (c["alias_scans_between_members"], 3400 if q else 54000),
         "isolation_checks": (c["isolation_checks"], 10000 if q else 290000),
+        "objects_taken_apart_by_iteration": (c["objects_taken_apart_by_iteration"], 2000),
+        "crossproc_loads": (c["crossproc_loads"], 50),
         "view_assignments": (c["observed_view_assignment_writes_through"] + c["observed_view_assignment_is_detached"], 150 if q else 3500),
         "portable_configurations_evaluated": (total.evaluations - ev0, 1150 if q else 2300),
         "portable_round_trips_compared": (c["observed_levels_preserved"] + sum(v for k, v in c.items() if k.startswith("observed_levels_not")), 2300 if q else 4600),
@@ -1189,6 +1288,8 @@ def replay(case):
             portable_case(case["config"], res, workdir)
         finally:
             shutil.rmtree(workdir, ignore_errors=True)
+    elif case.get("part") == "crossproc":
+        shard_crossproc((case["kind"], case["init"], case["how"]), res, ctx)
     want = case.get("check")        # the oracle that failed when the case was stored; other oracles are not part of this replay
     return ["%s %s %s" % (v["check"], engine.sigkey(v["signature"]), v["detail"]) for v in res.violations
             if want is None or v["check"] == want]
